@@ -35,6 +35,13 @@ def gen_lost(ch, prof):
                 j["est"] = 1
             j["dur"] = g.pick([5.0, 20.0, 50.0, 70.0, 200.0])
     sc["env"]["p_stall"] = 0.0
+    if g.flip(0.3):
+        # a slow status query: batches finish (or are lost) inside another round
+        sc["env"]["lat"] = dict(sc["env"].get("lat") or {}, squeue=g.pick([30.0, 120.0]))
+        n = len(sc["jobs"])
+        for _ in range(g.rint(1, 3)):
+            sc["user"] = sc.get("user", []) + [{"cmd": "try-submit-jobs", "after": {"kind": "job_exit", "n": g.rint(1, max(1, n))},
+                                               "delay": g.pick([0.0, 0.1, 2.0])}]
     return sc
 
 
@@ -190,6 +197,12 @@ def gen_crash(ch, prof):
     g = Gen(ch)
     sc["env"]["p_stall"] = 0.0
     sc["env"]["lock_behaviour"] = g.pick(["never_break", "break_stale"])
+    if g.flip(0.5):
+        # rounds that hand several batches to the HPC: more in-flight state per round
+        bs = g.pick([1, 1, 2])
+        for grp in sc["groups"]:
+            if not grp["params"]["time_based_batching"]:
+                grp["params"]["per_node_batch_size"] = bs
     mode = prof.get("fault_mode", "random")
     if mode == "random":
         p = {}
@@ -331,22 +344,33 @@ profiles.PROFILE_PROPS["crash_random"] = ["C11"]
 profiles.PROFILE_PROPS["crash_sweep"] = ["C11"]
 
 
-def sweep_plans(pilot_counters, quick, rng):
+def _sample(rng, n, lim, hot):
+    """lim of the n sites: up to half of them from the in-flight ('hot') sites, the rest uniformly."""
+    idx = list(range(n))
+    if n <= lim:
+        return idx
+    hot = [h for h in (hot or []) if h < n]
+    pick = set(rng.sample(hot, min(len(hot), lim // 2)))
+    rest = [i for i in idx if i not in pick]
+    pick |= set(rng.sample(rest, lim - len(pick)))
+    return sorted(pick)
+
+
+def sweep_plans(pilot_counters, quick, rng, hot=None):
     """Fault plans for the sites of one pilot execution."""
+    hot = hot or {}
     plans = []
     nk = pilot_counters.get("kill_submitter", 0)
     ks = list(range(nk))
     if quick and nk > 10:
-        ks = sorted(rng.sample(ks, 10))
+        ks = _sample(rng, nk, 10, hot.get("kill_submitter"))
     for k in ks:
         plans.append({"kind": "kill_submitter", "n": k, "scope": "node" if rng.random() < 0.25 else "command"})
     for kind, modes in (("sbatch_fail", ["all", "permanent", "garbage"]), ("squeue_fail", ["all", "k"]),
                         ("lock_timeout", [None]), ("write_fail", [None])):
         n = pilot_counters.get(kind, 0)
-        idx = list(range(n))
         lim = 5 if quick else 40
-        if n > lim:
-            idx = sorted(rng.sample(idx, lim))
+        idx = _sample(rng, n, lim, hot.get(kind))
         for k in idx:
             for m in (modes if not quick else [rng.choice(modes)]):
                 s = {"kind": kind, "n": k}
